@@ -5,4 +5,5 @@ let table : (string * (z list -> z list)) list = [
   ("tnet", run_tnet);
   ("route", run_route);
   ("dotdict", run_dotdict);
+  ("codec", run_codec);
 ]
